@@ -289,7 +289,8 @@ func flipCase(s string) string {
 	return s + "X"
 }
 
-var c18Passwords = []string{"", "", "hunter2", "correct horse battery staple", "pässwörd-ünïcode", "密码パスワード🔑", " leading and trailing ", "tab\tand\nnewline", "a", strings.Repeat("long-password-", 22)}
+var c18Passwords = []string{"", "", "hunter2", "correct horse battery staple", "pässwörd-ünïcode", "密码パスワード🔑", " leading and trailing ", "tab\tand\nnewline", "a", strings.Repeat("long-password-", 22),
+	"ends-in-newline\n", "ends-in-crlf\r\n", "\n", " ", "ends in blank ", "\tstarts-with-tab", "e\u0301 decomposed", "\u00e9 composed"}
 
 func TestC18(t *testing.T) {
 	rapid.Check(t, func(t *rapid.T) {
@@ -308,6 +309,9 @@ func TestC18(t *testing.T) {
 		if len(c.Password) > 1 {
 			cands = append(cands, c.Password[:len(c.Password)/2])
 		}
+		// differences a sloppy normalisation would erase: white space at the ends, line ends
+		cands = append(cands, c.Password+"\n", c.Password+"\r\n", c.Password+" ", " "+c.Password, strings.TrimSpace(c.Password), strings.TrimRight(c.Password, "\r\n"), strings.ToLower(c.Password))
+		cands = rapid.Permutation(cands).Draw(t, "wrong_order")
 		nw := rapid.IntRange(1, 3).Draw(t, "nwrong")
 		if c.Format == "minisign" {
 			nw = 1 // scrypt at 1 GiB / several seconds per attempt
